@@ -6,14 +6,17 @@ require (
 	github.com/SKAARHOJ/rawpanel-lib v0.0.0
 	github.com/s00500/env_logger v0.1.29
 	github.com/sirupsen/logrus v1.9.3
+	github.com/subchen/go-xmldom v1.1.2
 	google.golang.org/protobuf v1.34.1
 )
 
 require (
 	github.com/SKAARHOJ/ibeam-lib-utils v1.0.0 // indirect
+	github.com/antchfx/xpath v1.2.4 // indirect
 	github.com/mattn/go-colorable v0.1.13 // indirect
 	github.com/mattn/go-isatty v0.0.20 // indirect
 	go.uber.org/atomic v1.11.0 // indirect
+	golang.org/x/exp v0.0.0-20230728194245-b0cb94b80691 // indirect
 	golang.org/x/sys v0.20.0 // indirect
 )
 
